@@ -2,7 +2,7 @@
 import numpy as np
 
 from .. import tlc, dsys
-from ..common import MachineryFailure, import_dreye, pmap
+from ..common import MachineryFailure, import_dreye, pmap, grouped
 
 RULE = ("one TLC state per (lattice system, receptor weights) carrying a target grid (inside / on / outside the gamut, "
         "below the baseline) with the exact optimum from the active-set/KKT oracle, which TLC proves optimal on the "
@@ -107,8 +107,11 @@ def run(ctx):
         raise MachineryFailure("no states")
     for st in sts:
         st["fits"].sort(key=lambda f: f["b"])
-    jobs = [([st], thorough or (i % 3 == 0)) for i, st in enumerate(sts)]
-    parts = pmap(_chunk, jobs, chunksize=1)
+    # states of the same capture matrix (different bounds / baseline / weights) run back to back in one process
+    groups = grouped(sts, lambda st: repr((st["sys"]["A"], st["sys"]["Kn"], st["sys"]["DK"])))
+    sts = [st for g in groups for st in g]
+    jobs = [(g, thorough or (i % 3 == 0)) for i, g in enumerate(groups)]
+    parts = [[r] for gp in pmap(_chunk, jobs, chunksize=1) for r in gp]
     for st, part in zip(sts, parts):
         for clause, where, exp, obs, f in part[0]:
             ctx.violation(clause, where, dict(sys=st["sys"], w=st["w"], fit=f, fam=st["fam"]), exp, obs)
